@@ -53,7 +53,15 @@ static long              nsteps, nswitch, npreempt, clock_calls;
 static long              cpoints[16];
 static int               ncp;
 static uint64_t          vstart;
+static long              streak; // consecutive sync points of the running thread without a switch
+static long              nforced;
 static __thread vthread *self;
+
+// Fairness: nng contains polling loops that rely on a fair OS scheduler (e.g. listener_reap
+// re-queues itself until other threads have closed the listener's pipes).  A thread that passes
+// SPIN_LIMIT sync points without blocking while others are runnable is forced to yield (and, under
+// PCT, drops to the lowest priority), as a real scheduler would eventually pre-empt it.
+#define SPIN_LIMIT 3000
 
 static uint64_t
 rnd(void)
@@ -174,6 +182,19 @@ schedule(bool preempt)
 			die("LIVELOCK (step budget exceeded)");
 		}
 		vthread *next = NULL;
+		if (self->st == ST_RUN && streak > SPIN_LIMIT && n > 1) {
+			// forced yield (fairness)
+			nforced++;
+			streak = 0;
+			if (C.mode == VS_PCT) {
+				self->prio = 0;
+			} else {
+				do {
+					next = cand[rnd() % n];
+				} while (next == self);
+			}
+		}
+		if (next == NULL)
 		switch (C.mode) {
 		case VS_FIFO:
 			next = (self->st == ST_RUN) ? self : cand[rnd() % n];
@@ -200,6 +221,7 @@ schedule(bool preempt)
 		}
 		if (next != self) {
 			nswitch++;
+			streak = 0;
 			if (preempt) {
 				npreempt++;
 			}
@@ -234,8 +256,11 @@ wake_obj(int st, void *obj, bool one)
 static void
 yield_point(void)
 {
-	if (C.mode != VS_FIFO) {
+	if (C.mode != VS_FIFO || ++streak > SPIN_LIMIT) {
 		pthread_mutex_lock(&G);
+		if (C.mode != VS_FIFO) {
+			streak++;
+		}
 		schedule(true);
 		pthread_mutex_unlock(&G);
 	}
@@ -580,6 +605,8 @@ vs_init(const vs_cfg *cfg)
 	}
 	t->prio     = (rnd() | (1ull << 40));
 	nsteps      = 0;
+	streak      = 0;
+	nforced     = 0;
 	nswitch     = 0;
 	npreempt    = 0;
 	clock_calls = 0;
